@@ -22,10 +22,37 @@ func init() {
 	})
 }
 
-const (
+// The two helpers that turn one solver model into 2^k models: found by what they are (see countHelpers), the names
+// are only the fallback.
+var (
 	fnAddCurrent   = "(*solver.Solver).addCurrentModels"
 	fnCountCurrent = "(*solver.Solver).countCurrentModels"
 )
+
+// countHelpers finds, among the Solver methods Enumerate and CountModels call directly, the one that receives the
+// models channel and returns a count, and the one without parameters that returns a count.
+func countHelpers(w *World, enumerate, count *ssa.Function) (add, cnt *ssa.Function) {
+	isSolverMethod := func(f *ssa.Function) bool {
+		return f != nil && w.PkgName(f) == "solver" && f.Signature.Recv() != nil && typeShort(f.Signature.Recv().Type()) == "*solver.Solver" &&
+			f.Signature.Results().Len() == 1 && typeShort(f.Signature.Results().At(0).Type()) == "int"
+	}
+	for _, ci := range callsIn(enumerate) {
+		f := ci.Common().StaticCallee()
+		if !isSolverMethod(f) || f.Signature.Params().Len() != 1 {
+			continue
+		}
+		if _, isChan := f.Signature.Params().At(0).Type().Underlying().(*types.Chan); isChan {
+			add = f
+		}
+	}
+	for _, ci := range callsIn(count) {
+		f := ci.Common().StaticCallee()
+		if isSolverMethod(f) && f.Signature.Params().Len() == 0 && f != count && f != enumerate {
+			cnt = f
+		}
+	}
+	return
+}
 
 // asymmetries of Enumerate ~ CountModels.
 func asymEnumerateCount() []e7asym {
@@ -52,7 +79,13 @@ func ruleR5_2(w *World, r *Report) {
 	}
 	asym := asymEnumerateCount()
 	opts := e7opts{}
-	add, cnt := w.Func("solver", "Solver.addCurrentModels"), w.Func("solver", "Solver.countCurrentModels")
+	add, cnt := countHelpers(w, a, b)
+	if add != nil {
+		fnAddCurrent = w.FuncName(add)
+	}
+	if cnt != nil {
+		fnCountCurrent = w.FuncName(cnt)
+	}
 	if add != nil && cnt != nil {
 		// both count helpers are expanded in both siblings, so that the returned totals compare by what is computed
 		opts.ForceInline = []string{fnAddCurrent, fnCountCurrent}
